@@ -5,7 +5,7 @@
    [parse] over every behaviour of str::parse::<f64>. *)
 From Coq Require Import List NArith ZArith Bool.
 From GV Require Import Base.Outcome Base.AMap Model.GState Model.Creation Model.XmlEscape Model.GraphML.
-From GV Require Import Spec.GraphMLDef Proofs.EscapeOk Proofs.GraphMLOk.
+From GV Require Import Spec.GraphMLDef Proofs.EscapeOk Proofs.GraphMLOk Proofs.CreationNoPanic Proofs.ReaderTotal.
 Import ListNotations.
 
 (* the event loop (everything read_graphml_string does before calling the
@@ -29,3 +29,37 @@ Theorem C19_ok_content : forall (parse : bytes -> option weight) (evs : list eve
   | None => Err ReadError
   end.
 Proof. exact read_events_content. Qed.
+
+(* read_graphml_string as a whole — event loop and Graph::new_from_nodes_and_edges — on EVERY event
+   sequence, every parse oracle and every GraphSpecs: a value or an error, never a panic, never out of fuel
+   (termination is structural: one event per step) *)
+Theorem C19_total : forall (parse : bytes -> option weight) (evs : list event) (s : specs),
+  exists r, read_events parse evs s = r /\ is_panic r = false /\ is_fuel r = false.
+Proof. exact read_events_total. Qed.
+
+(* the errors it can return *)
+Theorem C19_error_kinds : forall (parse : bytes -> option weight) (evs : list event) (s : specs) (k : errkind),
+  read_events parse evs s = Err k ->
+  k = ReadError \/ k = SelfLoopsFound \/ k = NodeNotFound \/ k = DuplicateEdge.
+Proof. exact read_events_error_kinds. Qed.
+
+(* Ok g: the document was accepted with elements els, g is the constructor's result on exactly the node
+   and edge elements of els, and g has the directedness the document declares *)
+Theorem C19_ok_directed : forall (parse : bytes -> option weight) (evs : list event) (s : specs) (g : ggraph),
+  read_events parse evs s = Ok g ->
+  exists els,
+    doc_elems parse evs s_weight LNone = Some els /\
+    new_from_nodes_and_edges bytes_eqb bytes_ltb (el_nodes els) (el_edges els)
+      (with_directed (el_directed true els) s) = Ok g /\
+    sp g = with_directed (el_directed true els) s /\
+    directed (sp g) = el_directed true els.
+Proof. exact read_events_ok. Qed.
+
+(* the constructor itself, for any name type with decidable equality: no input makes it panic *)
+Theorem C19_constructor_no_panic :
+  forall (T A : Type) (teqb tltb : T -> T -> bool),
+  (forall x y, teqb x y = true <-> x = y) ->
+  forall (ns : list (node T A)) (es : list (edge T A)) (s : specs),
+  is_panic (new_from_nodes_and_edges teqb tltb ns es s) = false /\
+  is_fuel (new_from_nodes_and_edges teqb tltb ns es s) = false.
+Proof. exact (@new_from_no_panic). Qed.
